@@ -16,7 +16,7 @@
 (* linearisation search of CondWriteTrace.tla like any other round.          *)
 EXTENDS CondWrite, Json
 
-CONSTANTS TwoRacers
+CONSTANTS TwoRacers, BumpMode
 
 Mk(k, b, c, o) == [kind |-> k, blob |-> b, cond |-> c, seen |-> "", off |-> o]
 \* the holder writes blob x, racers write y / z (the harness makes every write distinguishable anyway)
@@ -32,17 +32,19 @@ Setups == {<<>>, <<Mk("Put", "x", "none", -1)>>, <<Mk("Put", "x", "none", -1), M
 None == Mk("None", "", "none", -1)
 
 VARIABLE rd
-RInit == Init /\ rd \in [setup : Setups, hold : HolderOps, r1 : RacerOps("y"),
-                 r2 : IF TwoRacers THEN RacerOps("y") ELSE {None}]
+\* BumpMode: no holder; ONE call runs with the competing metadata-only writer armed (CondWrite!LinLostCAS)
+RInit == Init /\ rd \in [setup : Setups, hold : IF BumpMode THEN {None} ELSE HolderOps, r1 : RacerOps("y"),
+                 r2 : IF TwoRacers /\ ~BumpMode THEN RacerOps("y") ELSE {None}]
 RNext == UNCHANGED <<vars, rd>>
 Step(c, o) == [c |-> c, op |-> o]
 \* phase 1: g1 runs the setup; phase 2: every client reads (learns the ETag it may condition on);
 \* phase 3 (hold): g2 = H first, then the racers g1 (, g3)
 Round == [phases |-> <<
-   [hold |-> FALSE, ops |-> [i \in 1..Len(rd.setup) |-> Step("g1", rd.setup[i])]],
-   [hold |-> FALSE, ops |-> <<Step("g1", Mk("Get", "", "none", -1)), Step("g2", Mk("Get", "", "none", -1)),
+   [hold |-> FALSE, bump |-> FALSE, ops |-> [i \in 1..Len(rd.setup) |-> Step("g1", rd.setup[i])]],
+   [hold |-> FALSE, bump |-> FALSE, ops |-> <<Step("g1", Mk("Get", "", "none", -1)), Step("g2", Mk("Get", "", "none", -1)),
                               Step("g3", Mk("Get", "", "none", -1))>>],
-   [hold |-> TRUE, ops |-> <<Step("g2", rd.hold), Step("g1", rd.r1)>>
+   IF BumpMode THEN [hold |-> FALSE, bump |-> TRUE, ops |-> <<Step("g1", rd.r1)>>]
+   ELSE [hold |-> TRUE, bump |-> FALSE, ops |-> <<Step("g2", rd.hold), Step("g1", rd.r1)>>
                             \o (IF rd.r2 = None THEN <<>> ELSE <<Step("g3", rd.r2)>>)]>>]
 Emit == PrintT(ToJson(Round))
 =============================================================================
